@@ -20,6 +20,7 @@
      been used;
    - time is a logical clock in milliseconds. *)
 From Coq Require Import List NArith Bool.
+From V.common Require Import Wire.   (* sort_by *)
 Import ListNotations.
 Open Scope N_scope.
 
@@ -834,6 +835,21 @@ Fixpoint grun (cf : cfg) (g : ghost) (l : list (ev * list out * option N)) : gho
 (* the environment has discharged everything it owes *)
 Definition discharged (g : ghost) : Prop :=
   g_dials g = [] /\ g_opens g = [] /\ forall x, In x (g_live g) -> snd x <= g_now g.
+
+(* The environment discharges everything it owes, by its own books: a DialFailure for each peer of
+   ds, a ConnectionClosed for each peer of cs, then the clock advances by dt. *)
+Definition flush_of (ds cs : list N) (dt : N) : list ev :=
+  map EDialFail ds ++ map EClosed cs ++ [EAdvance dt].
+Fixpoint dedup (l : list N) : list N :=
+  match l with
+  | [] => []
+  | x :: t => if memN x t then dedup t else x :: dedup t
+  end.
+(* ... for the ledger g: every peer with an accepted, unanswered dial, every connected peer (in
+   ascending order, the order in which the harness injects the events), and more than the
+   request timeout *)
+Definition flush_evs (cf : cfg) (g : ghost) : list ev :=
+  flush_of (sort_by (fun x : N => x) (dedup (g_dials g))) (sort_by (fun x : N => x) (dedup (g_conn g))) (2 * tmo cf + 1).
 
 (* ------------------------------------------------------------------ the bounded event channel
 
